@@ -300,6 +300,32 @@ fn install_termios(fd: RawFd, variant: u64) {
     }
 }
 
+/// number of times a write to the (non-blocking) master had to be repeated
+static MASTER_WRITE_RETRIES: AtomicU64 = AtomicU64::new(0);
+/// writes to the master come from two threads (peer, typist): a non-blocking tty write fails with EAGAIN while
+/// another writer holds the tty's write lock, and may be short — serialise and repeat until everything is written
+static MASTER_WRITE: Mutex<()> = Mutex::new(());
+
+fn master_write(master: RawFd, bytes: &[u8]) -> bool {
+    let _guard = MASTER_WRITE.lock().unwrap_or_else(|e| e.into_inner());
+    let mut done = 0;
+    let t0 = Instant::now();
+    while done < bytes.len() {
+        let n = unsafe { libc::write(master, bytes[done..].as_ptr() as *const libc::c_void, bytes.len() - done) };
+        if n > 0 {
+            done += n as usize;
+        } else {
+            let errno = std::io::Error::last_os_error().raw_os_error().unwrap_or(0);
+            if (errno != libc::EAGAIN && errno != libc::EINTR) || t0.elapsed() > SLACK {
+                return false;
+            }
+            MASTER_WRITE_RETRIES.fetch_add(1, Ordering::SeqCst);
+            std::thread::sleep(Duration::from_micros(50));
+        }
+    }
+    true
+}
+
 struct Shared {
     received: Mutex<Vec<u8>>,
     count: AtomicUsize,
@@ -347,12 +373,12 @@ fn peer(master: RawFd, keep: RawFd, shared: Arc<Shared>) {
         while i < tail.len() {
             if tail[i..].starts_with(b"\x1b[c") {
                 shared.at_da.lock().unwrap().push((base, termios_words(keep), Instant::now()));
-                unsafe { libc::write(master, DA_REPLY.as_ptr() as *const libc::c_void, DA_REPLY.len()) };
+                master_write(master, DA_REPLY);
                 i += 3;
                 done = i;
             } else if tail[i..].starts_with(b"\x1b[14t") {
                 if shared.answer_size.load(Ordering::SeqCst) {
-                    unsafe { libc::write(master, SIZE_REPLY.as_ptr() as *const libc::c_void, SIZE_REPLY.len()) };
+                    master_write(master, SIZE_REPLY);
                 }
                 i += 5;
                 done = i;
@@ -373,9 +399,12 @@ fn typist(master: RawFd, rx: mpsc::Receiver<(Vec<u8>, u64)>, typed: Arc<Mutex<Ve
             std::thread::sleep(Duration::from_micros(delay));
         }
         if !closed.load(Ordering::SeqCst) {
-            // logged before the write: an event can never be seen before its byte is in the log
-            typed.lock().unwrap().extend_from_slice(&bytes);
-            unsafe { libc::write(master, bytes.as_ptr() as *const libc::c_void, bytes.len()) };
+            // the log is locked during the write: an event can never be seen before its byte is in the log, and only
+            // bytes that really entered the tty are expected back
+            let mut log = typed.lock().unwrap();
+            if master_write(master, &bytes) {
+                log.extend_from_slice(&bytes);
+            }
         }
         pending.fetch_sub(1, Ordering::SeqCst);
     }
@@ -599,6 +628,9 @@ struct Runner {
     quit_seen: bool,
     hung_up: bool,
     poll_failed: bool,
+    /// what the terminal read from the tty and queued, in order (diagnostics for lost-input reports)
+    input_log: Vec<String>,
+    frames_dropped: bool,
     /// the session wants to drop the terminal while the peer does not read
     keep_stalled: bool,
     req: String,
@@ -625,6 +657,13 @@ impl Runner {
         self.out.polls += 1;
         // trace refinement
         let recs = verif_c17::take_trace();
+        for x in recs.iter() {
+            match x {
+                Rec::TtyRead(b) => self.input_log.push(format!("read:{}", String::from_utf8_lossy(b).escape_default())),
+                Rec::Pushed(t) if t != "wake" => self.input_log.push(format!("push:{t}")),
+                _ => {}
+            }
+        }
         let timeout_ns = timeout.map(|d| d.as_nanos());
         let m = poll_model(&recs, timeout_ns, self.size_esc);
         self.out.iterations += m.iterations;
@@ -723,6 +762,7 @@ impl Runner {
             }
             Step::FramesDrop => {
                 term.frames_drop();
+                self.frames_dropped = true;
                 self.req.push_str(" d");
                 self.exp.push(self.state_token(term));
             }
@@ -862,8 +902,15 @@ impl Runner {
                 break;
             }
             if t0.elapsed() > SLACK && polls >= 40 {
+                let log = self.input_log.join(" ");
+                let typed = String::from_utf8_lossy(&self.typed.lock().unwrap()).to_string();
                 for (what, since) in open {
-                    self.fail(what, "delivered within 5 s".into(), format!("not delivered after {:?} and {polls} further polls", since.elapsed()));
+                    if what.starts_with("SIGWINCH") && self.size_esc && self.frames_dropped {
+                        // the size query that answers SIGWINCH in this mode may have been in a dropped frame
+                        self.out.class = Some("resize-lost-after-frames_drop-in-escape-size-mode".into());
+                    }
+                    self.fail(what, "delivered within 5 s".into(), format!("not delivered after {:?} and {polls} further polls; typed {typed:?}, seen {:?}; tty input log: {}",
+                        since.elapsed(), String::from_utf8_lossy(&self.keys_seen), &log[log.len().saturating_sub(1500)..]));
                 }
                 break;
             }
@@ -954,7 +1001,7 @@ fn run_session(s: &Session) -> Outcome {
         keys_tx, typed, typist_pending, master_closed, in_poll: Arc::new(Mutex::new(InPoll { since: None })),
         stuck: Arc::new(AtomicBool::new(false)), session_thread: unsafe { libc::pthread_self() },
         keys_seen: vec![], last_wake_event: None, last_resize_event: None, term_raised: None, quit_seen: false,
-        hung_up: false, poll_failed: false, keep_stalled: s.label.contains("stalled"),
+        hung_up: false, poll_failed: false, input_log: vec![], frames_dropped: false, keep_stalled: s.label.contains("stalled"),
         req: format!("c17 s o:{before_tok}:1111 z:{}", if size_esc { 1 } else { 0 }),
         exp: vec![format!("saved={}/5", words_token(&saved)), "q0/0e0".into()],
         out: outcome,
@@ -1079,7 +1126,7 @@ fn run_session(s: &Session) -> Outcome {
     }
     let send_before = term.stats().send;
     let hung_up = r.hung_up;
-    if r.term_raised.is_some() && !r.quit_seen {
+    if r.term_raised.is_some() && !r.quit_seen && r.out.class.is_none() {
         r.out.class = Some("termination-signal-pending-at-drop".into());
     }
     let _ = verif_c17::take_trace();
@@ -1475,6 +1522,7 @@ fn finish_extra(out: &mut Out, tot: &Totals) {
         "select_interrupted": tot.retries, "wake_calls": tot.wakes, "wake_events": tot.wake_events, "waker_reads_of_more_than_one_byte": tot.coalesced,
         "key_events": tot.keys, "resize_events": tot.resizes, "quit_errors": tot.quits, "restore_checked": tot.restore_checked,
         "epilogue_checked": tot.epilogue_checked, "traces_validated": tot.traces,
+        "master_write_retries": MASTER_WRITE_RETRIES.load(Ordering::SeqCst),
         "note": "sampling of thread / kernel schedules on a real pseudo-terminal, not a proof; every timing expectation has 5 s of slack; \
                  sessions that cannot be judged are counted as inconclusive, never as violations",
     }));
